@@ -99,16 +99,17 @@ func c09ConstAtLeast(n int64) Pat {
 // c09StateEq: branch edge on which "<x>.State == <const>" holds, for any of
 // the given state constants (one barrier per constant).
 func c09StateEq(stateF *types.Var, names []string, vals []constant.Value) []Barrier {
-	var out []Barrier
-	for i, v := range vals {
-		out = append(out, OnCmp("State=="+names[i], FieldIs(stateF), token.EQL, c09ConstIs(v), true))
+	var atoms []c09Cmp
+	for _, v := range vals {
+		atoms = append(atoms, c09Cmp{FieldIs(stateF), token.EQL, c09ConstIs(v)})
 	}
-	return out
+	// one combined any-of barrier (phi-aware: also recognises the test through a boolean local)
+	return []Barrier{c09CmpBarrier("State=="+strings.Join(names, "|"), true, atoms...)}
 }
 
 // c09StateNe: branch edge on which "<x>.State == <const>" fails.
 func c09StateNe(stateF *types.Var, name string, val constant.Value) Barrier {
-	return OnCmp("State!="+name, FieldIs(stateF), token.EQL, c09ConstIs(val), false)
+	return c09CmpBarrier("State!="+name, false, c09Cmp{FieldIs(stateF), token.EQL, c09ConstIs(val)})
 }
 
 // c09Reached reports which of the target instructions are reachable from the
@@ -473,4 +474,402 @@ func sortStrings(s []string) {
 			s[j], s[j-1] = s[j-1], s[j]
 		}
 	}
+}
+
+// ---------------------------------------------------------------------------
+// Shape-independent evaluation of small boolean functions (used by C09-R4 and
+// C13-R1).  The function's CFG is simulated for every assignment of the
+// declared atoms; phis are resolved through the edge actually taken, so an
+// early-return chain, one `a && b && c` expression, De Morgan forms, named
+// boolean locals and switch statements all give the same table.  Conditions
+// that are none of the declared atoms become free extra atoms (both values are
+// explored), and calls of same-package helpers returning one bool are inlined
+// with their parameters substituted.  Nothing is executed.
+
+type c09Atom struct {
+	Name string
+	// Match: e is true exactly when the atom has value pol.
+	Match func(e *Expr) (matched bool, pol bool)
+}
+
+// c09TruthyAtom: the atom is "p is truthy" (true / non-nil).
+func c09TruthyAtom(name string, p Pat) c09Atom {
+	return c09Atom{Name: name, Match: func(e *Expr) (bool, bool) {
+		a, pol := Truthy(e)
+		if a != nil && p(a) {
+			return true, pol
+		}
+		return false, false
+	}}
+}
+
+// c09CmpAtom: the atom is "lhs op rhs".
+func c09CmpAtom(name string, lhs Pat, op token.Token, rhs Pat) c09Atom {
+	return c09Atom{Name: name, Match: func(e *Expr) (bool, bool) { return CmpMatch(e, lhs, op, rhs) }}
+}
+
+type c09Row struct {
+	Atoms  []bool
+	Extra  map[string]bool
+	Result bool
+}
+
+// c09SubstParams returns a copy of e with parameters replaced by args.
+func c09SubstParams(e *Expr, args []*Expr, depth int) *Expr {
+	if e == nil || args == nil || depth > 30 {
+		return e
+	}
+	if e.K == EParam && e.Idx >= 0 && e.Idx < len(args) && args[e.Idx] != nil {
+		return args[e.Idx]
+	}
+	cp := *e
+	cp.X = c09SubstParams(e.X, args, depth+1)
+	cp.Y = c09SubstParams(e.Y, args, depth+1)
+	if len(e.Args) > 0 {
+		cp.Args = make([]*Expr, len(e.Args))
+		for i, a := range e.Args {
+			cp.Args[i] = c09SubstParams(a, args, depth+1)
+		}
+	}
+	return &cp
+}
+
+type c09Sim struct {
+	atoms []c09Atom
+	row   []bool
+	extra map[string]bool
+	need  string
+	err   string
+	pkg   *types.Package
+}
+
+func (s *c09Sim) run(fn *ssa.Function, resIdx int, args []*Expr, depth int) bool {
+	if len(fn.Blocks) == 0 || depth > 3 {
+		s.err = "cannot evaluate " + fnKey(fn)
+		return false
+	}
+	from := map[*ssa.BasicBlock]*ssa.BasicBlock{}
+	var eval func(v ssa.Value) bool
+	eval = func(v ssa.Value) bool {
+		if s.err != "" || s.need != "" {
+			return false
+		}
+		switch x := v.(type) {
+		case *ssa.Const:
+			if x.Value != nil && x.Value.Kind() == constant.Bool {
+				return constant.BoolVal(x.Value)
+			}
+		case *ssa.UnOp:
+			if x.Op == token.NOT {
+				return !eval(x.X)
+			}
+		case *ssa.Phi:
+			pred := from[x.Block()]
+			for i, p := range x.Block().Preds {
+				if p == pred && i < len(x.Edges) {
+					return eval(x.Edges[i])
+				}
+			}
+			s.err = "phi evaluated without a known incoming edge"
+			return false
+		}
+		e := Desc(v)
+		if args != nil {
+			e = c09SubstParams(e, args, 0)
+		}
+		for i, a := range s.atoms {
+			if m, pol := a.Match(e); m {
+				return s.row[i] == pol
+			}
+		}
+		if cl, ok := v.(*ssa.Call); ok {
+			if callee := cl.Call.StaticCallee(); callee != nil && len(callee.Blocks) > 0 && fnPkg(callee) == s.pkg {
+				if res := callee.Signature.Results(); res.Len() == 1 && types.Identical(res.At(0).Type().Underlying(), types.Typ[types.Bool]) {
+					var sub []*Expr
+					for _, av := range cl.Call.Args {
+						sub = append(sub, c09SubstParams(Desc(av), args, 0))
+					}
+					return s.run(callee, 0, sub, depth+1)
+				}
+			}
+		}
+		if b, ok := v.(*ssa.BinOp); ok && (b.Op == token.EQL || b.Op == token.NEQ) {
+			if bt, ok := b.X.Type().Underlying().(*types.Basic); ok && bt.Kind() == types.Bool {
+				l, r := eval(b.X), eval(b.Y)
+				return (l == r) == (b.Op == token.EQL)
+			}
+		}
+		// free extra atom
+		a, pol := Truthy(e)
+		key := e.String()
+		if a != nil {
+			key = a.String()
+		} else {
+			pol = true
+		}
+		if val, ok := s.extra[key]; ok {
+			return val == pol
+		}
+		s.need = key
+		return false
+	}
+	b := fn.Blocks[0]
+	var prev *ssa.BasicBlock
+	for steps := 0; steps < 5000; steps++ {
+		from[b] = prev
+		if len(b.Instrs) == 0 {
+			s.err = "empty block"
+			return false
+		}
+		switch t := b.Instrs[len(b.Instrs)-1].(type) {
+		case *ssa.Return:
+			if resIdx >= len(t.Results) {
+				s.err = "no such result"
+				return false
+			}
+			return eval(t.Results[resIdx])
+		case *ssa.Jump:
+			prev, b = b, b.Succs[0]
+		case *ssa.If:
+			v := eval(t.Cond)
+			if s.err != "" || s.need != "" {
+				return false
+			}
+			prev = b
+			if v {
+				b = b.Succs[0]
+			} else {
+				b = b.Succs[1]
+			}
+		default:
+			s.err = "path ends without a return"
+			return false
+		}
+	}
+	s.err = "walk did not terminate (loop?)"
+	return false
+}
+
+// c09BoolFnRows evaluates result #resIdx of fn for every assignment of the
+// declared atoms (and of the free extra atoms met on the way).
+func c09BoolFnRows(fn *ssa.Function, resIdx int, atoms []c09Atom) ([]c09Row, string) {
+	var rows []c09Row
+	var explore func(row []bool, extra map[string]bool) string
+	explore = func(row []bool, extra map[string]bool) string {
+		s := &c09Sim{atoms: atoms, row: row, extra: extra, pkg: fnPkg(fn)}
+		res := s.run(fn, resIdx, nil, 0)
+		if s.err != "" {
+			return s.err
+		}
+		if s.need != "" {
+			if len(extra) >= 10 {
+				return "too many undeclared conditions"
+			}
+			for _, val := range []bool{true, false} {
+				ne := map[string]bool{}
+				for k, v := range extra {
+					ne[k] = v
+				}
+				ne[s.need] = val
+				if e := explore(row, ne); e != "" {
+					return e
+				}
+			}
+			return ""
+		}
+		rows = append(rows, c09Row{Atoms: append([]bool{}, row...), Extra: extra, Result: res})
+		return ""
+	}
+	n := len(atoms)
+	for r := 0; r < 1<<n; r++ {
+		row := make([]bool, n)
+		for i := range row {
+			row[i] = r&(1<<i) != 0
+		}
+		if e := explore(row, map[string]bool{}); e != "" {
+			return nil, e
+		}
+	}
+	return rows, ""
+}
+
+// c09RequireWhenTrue: for every evaluated row with Result==want, pred(atoms)
+// must hold; reports the first counter-example.
+func (c *Ctx) c09RequireWhen(rule, key string, fn *ssa.Function, resIdx int, atoms []c09Atom, want bool, pred func(v map[string]bool) bool, predText string) {
+	rows, err := c09BoolFnRows(fn, resIdx, atoms)
+	if err != "" {
+		c.undecided(rule, key, fn.Pos(), fnKey(fn)+": guard structure not evaluable: "+err)
+		return
+	}
+	seen := map[string]bool{}
+	for _, r := range rows {
+		v := map[string]bool{}
+		var as []string
+		for i, a := range atoms {
+			v[a.Name] = r.Atoms[i]
+			as = append(as, fmt.Sprintf("%s=%v", a.Name, r.Atoms[i]))
+			seen[a.Name] = true
+		}
+		if r.Result == want && !pred(v) {
+			c.violation(rule, key, fn.Pos(), fmt.Sprintf("%s returns %v although %s is false (%s)", fnKey(fn), want, predText, strings.Join(as, ",")))
+			return
+		}
+	}
+	c.ok(rule, key, fn.Pos(), fmt.Sprintf("%s returns %v only when %s (%d evaluated paths, any guard shape)", fnKey(fn), want, predText, len(rows)))
+}
+
+// c09RetSite is a (program point, value) pair at which a function result is
+// produced: a return whose result is a phi defined in the return's own block is
+// expanded into its incoming edges (site = terminator of the predecessor).
+type c09RetSite struct {
+	At  ssa.Instruction
+	Val ssa.Value
+	Ret *ssa.Return
+}
+
+func c09ReturnSites(fn *ssa.Function, idx int) []c09RetSite {
+	var out []c09RetSite
+	for _, b := range fn.Blocks {
+		if len(b.Instrs) == 0 {
+			continue
+		}
+		r, ok := b.Instrs[len(b.Instrs)-1].(*ssa.Return)
+		if !ok || idx >= len(r.Results) {
+			continue
+		}
+		var expand func(v ssa.Value, at ssa.Instruction, blk *ssa.BasicBlock, depth int)
+		expand = func(v ssa.Value, at ssa.Instruction, blk *ssa.BasicBlock, depth int) {
+			ph, isPhi := v.(*ssa.Phi)
+			if !isPhi || ph.Block() != blk || depth > 4 {
+				out = append(out, c09RetSite{At: at, Val: v, Ret: r})
+				return
+			}
+			for i, e := range ph.Edges {
+				pred := blk.Preds[i]
+				term := pred.Instrs[len(pred.Instrs)-1]
+				if _, isJump := term.(*ssa.Jump); isJump {
+					expand(e, term, pred, depth+1)
+				} else {
+					// conditional edge: keep the value, anchor on the branch itself
+					out = append(out, c09RetSite{At: term, Val: e, Ret: r})
+				}
+			}
+		}
+		expand(r.Results[idx], r, b, 0)
+	}
+	return out
+}
+
+// c09LeavesThroughHelpers: leaf origins of v where a call of a same-package
+// function is replaced by what that function returns (parameters substituted
+// by the call's arguments).
+func c09LeavesThroughHelpers(v ssa.Value, pkg *types.Package) []*Expr {
+	var out []*Expr
+	var rec func(e *Expr, depth int)
+	rec = func(e *Expr, depth int) {
+		for _, l := range Origins(e, nil) {
+			s := strip(l)
+			idx := 0
+			call := s
+			if s != nil && s.K == EExtract {
+				idx = s.Idx
+				call = strip(s.X)
+			}
+			if call != nil && call.K == ECall && call.SFn != nil && len(call.SFn.Blocks) > 0 && fnPkg(call.SFn) == pkg && depth < 3 {
+				n := 0
+				for _, b := range call.SFn.Blocks {
+					if r, ok := b.Instrs[len(b.Instrs)-1].(*ssa.Return); ok && idx < len(r.Results) {
+						n++
+						rec(c09SubstParams(Desc(r.Results[idx]), call.Args, 0), depth+1)
+					}
+				}
+				if n > 0 {
+					continue
+				}
+			}
+			out = append(out, l)
+		}
+	}
+	rec(Desc(v), 0)
+	return out
+}
+
+// ---------------------------------------------------------------------------
+// Phi-aware comparison barriers.  OnCmp sees a comparison only where it is
+// branched on directly; a comparison assigned to a boolean local first
+// (`ok := a == X || a == Y; if ok {…}`) reaches the branch as a phi.  The
+// barrier below recognises, for a set of comparison atoms of which ANY ONE
+// suffices, the phi edge that implies one of them:
+//   holds=true : the phi-true edge, when every incoming operand is the constant
+//                false (cannot be the taken one), a comparison that is one of
+//                the atoms, or the constant true arriving over the holds-edge
+//                of a branch on one of the atoms;
+//   holds=false: symmetrically for the phi-false edge.
+
+type c09Cmp struct {
+	Lhs Pat
+	Op  token.Token
+	Rhs Pat
+}
+
+func c09CmpBarrier(name string, holds bool, atoms ...c09Cmp) Barrier {
+	match := func(e *Expr) (bool, bool) {
+		for _, a := range atoms {
+			if m, pol := CmpMatch(e, a.Lhs, a.Op, a.Rhs); m {
+				return true, pol
+			}
+		}
+		return false, false
+	}
+	return Barrier{Name: name, Edge: func(cond *Expr) (bool, int) {
+		if m, pol := match(cond); m {
+			if pol == holds {
+				return true, 0
+			}
+			return true, 1
+		}
+		at, cpol := Truthy(cond)
+		if at == nil || at.K != EPhi {
+			return false, 0
+		}
+		ph, ok := at.V.(*ssa.Phi)
+		if !ok || len(ph.Edges) == 0 {
+			return false, 0
+		}
+		// phi value that implies "some atom == holds"
+		for i, ed := range ph.Edges {
+			if k, isC := ed.(*ssa.Const); isC && k.Value != nil && k.Value.Kind() == constant.Bool {
+				if constant.BoolVal(k.Value) != holds {
+					continue // this operand cannot produce the phi value we are interested in
+				}
+				// constant `holds` arriving from a branch on one of the atoms, over its holds-edge
+				pred := ph.Block().Preds[i]
+				iff, isIf := pred.Instrs[len(pred.Instrs)-1].(*ssa.If)
+				if !isIf {
+					return false, 0
+				}
+				m, pol := match(condOf(iff))
+				if !m {
+					return false, 0
+				}
+				want := 1
+				if pol == holds {
+					want = 0
+				}
+				if pred.Succs[want] != ph.Block() || pred.Succs[1-want] == ph.Block() {
+					return false, 0
+				}
+				continue
+			}
+			// non-constant operand: must itself be one of the atoms, positively
+			if m, pol := match(Desc(ed)); !m || !pol {
+				return false, 0
+			}
+		}
+		// the phi has value `holds` exactly on successor…
+		if cpol == holds {
+			return true, 0
+		}
+		return true, 1
+	}}
 }
